@@ -15,7 +15,7 @@ structure DState where
 
 def stepLine (s : DState) (line : String) : DState × String :=
   let o := parseOp line
-  if o.engine == "reset" then ({}, "=> reset")
+  if o.engine == "reset" then ({ metaSt := { showRef := s.metaSt.showRef } }, "=> reset")
   else match o.engine with
   | "ec" => (s, ecStep o)
   | "int256" => (s, int256Step o)
@@ -38,4 +38,5 @@ partial def loop (h : IO.FS.Stream) (out : IO.FS.Stream) (s : DState) : IO Unit 
 def main : IO Unit := do
   let stdin ← IO.getStdin
   let stdout ← IO.getStdout
-  loop stdin stdout {}
+  let showRef := (← IO.getEnv "NEOFS_MODEL_REF").isSome
+  loop stdin stdout { metaSt := { showRef := showRef } }
